@@ -1190,6 +1190,12 @@ class KmipEngine(object):
         else:
             return False
 
+    def _date_string(self, value):
+        try:
+            return time.asctime(time.gmtime(value))
+        except (OverflowError, ValueError, OSError):
+            return str(value)
+
     def _is_valid_date(self, date_type, value, start, end):
         date_type = date_type.value.lower()
 
@@ -1200,9 +1206,9 @@ class KmipEngine(object):
                         "Failed match: object's {} ({}) is less than "
                         "the starting {} ({}).".format(
                             date_type,
-                            time.asctime(time.gmtime(value)),
+                            self._date_string(value),
                             date_type,
-                            time.asctime(time.gmtime(start))
+                            self._date_string(start)
                         )
                     )
                     return False
@@ -1211,9 +1217,9 @@ class KmipEngine(object):
                         "Failed match: object's {} ({}) is greater than "
                         "the ending {} ({}).".format(
                             date_type,
-                            time.asctime(time.gmtime(value)),
+                            self._date_string(value),
                             date_type,
-                            time.asctime(time.gmtime(end))
+                            self._date_string(end)
                         )
                     )
                     return False
@@ -1223,9 +1229,9 @@ class KmipEngine(object):
                         "Failed match: object's {} ({}) does not match "
                         "the specified {} ({}).".format(
                             date_type,
-                            time.asctime(time.gmtime(value)),
+                            self._date_string(value),
                             date_type,
-                            time.asctime(time.gmtime(start))
+                            self._date_string(start)
                         )
                     )
                     return False
